@@ -55,6 +55,12 @@ def e_det(c):
     else:
         E = amp * (rs.standard_normal(shape) + 1j * rs.standard_normal(shape)) / np.sqrt(2)
     nz = amp * np.sqrt(c["pn_rel"]) * (rs.standard_normal(shape) + 1j * rs.standard_normal(shape)) / np.sqrt(2) if c["noise"] else None
+    nkind = "none" if nz is None else ["random", "random", "inphase", "x-lit"][c["seed"] % 4]
+    if nkind == "inphase":            # optical noise correlated with the field (a constant fraction of it, slightly rotated) plus a random part
+        nz = 0.5 * E * np.exp(0.1j) + 0.1 * nz
+    elif nkind == "x-lit" and npol == 2:      # what a one-polarisation source looks like after an amplifier: y carries noise only
+        E = E.copy()
+        E[1] = 0
     r, T, R, BW, idark, Fn = c["r"], c["T"], c["R"], c["bw"] * fs, c["idark"], c["Fn"]
     sel = randcase(c["sel"], rs)
     x = optical_signal(E.copy(), None if nz is None else nz.copy(), n_pol=npol)
@@ -75,7 +81,7 @@ def e_det(c):
     scale = max(float(np.max(np.abs(ref))), 1e-300)
     check(np.max(np.abs(y.signal - ref)) <= 1e-10 * scale, "pd-signal!=LPF(R*r*|E|^2)", f"max err {np.max(np.abs(y.signal - ref)) / scale:.2e} relative")
     if c["cw"] is True:
-        check(np.max(np.abs(y.signal - r * R * npol * amp ** 2)) <= 1e-10 * scale, "pd-cw!=r*P*R_load", f"{y.signal[:3]} vs {r * R * npol * amp ** 2}")
+        check(np.max(np.abs(y.signal - r * R * float(psum[0]))) <= 1e-10 * scale, "pd-cw!=r*P*R_load", f"{y.signal[:3]} vs {r * R * float(psum[0])}")
     # the signal part does not depend on the noise selection or the seed
     for s2 in SELECTIONS:
         y2 = pd(seed=2, include_noise=s2)
@@ -226,7 +232,7 @@ def e_det(c):
     g.verify()
     g.no_alias([("PD.signal", y.signal), ("PD.noise", y.noise)])
     g.release()
-    return {"nontrivial": npol == 2 and nz is not None, "classes": [f"pol{npol}", "optnoise" if nz is not None else "clean", c["sel"], ("cw-ripple" if c["cw"] == "ripple" else "cw") if c["cw"] else "random", c["gv"]["form"]] + scale_cls + twin_cls}
+    return {"nontrivial": npol == 2 and nz is not None, "classes": [f"pol{npol}", "optnoise" if nz is not None else "clean", c["sel"], ("cw-ripple" if c["cw"] == "ripple" else "cw") if c["cw"] else "random", c["gv"]["form"], "noise-" + nkind] + scale_cls + twin_cls}
 
 
 s_err = st.fixed_dictionaries({"what": st.sampled_from(["r0", "r-neg", "r>1", "r-type", "T-neg", "T-type", "R-neg", "R-type", "sel-type", "sel-unknown", "input"]),
@@ -275,7 +281,7 @@ def e_err(c):
 
 @st.composite
 def s_stat(draw):
-    return {"gv": draw(s_gv(sps_max=32)), "regime": draw(st.sampled_from(["thermal", "shot-dark", "shot-bright", "shot-optnoise", "both", "all"])),
+    return {"gv": draw(s_gv(sps_max=32)), "regime": draw(st.sampled_from(["thermal", "shot-dark", "shot-bright", "shot-optnoise", "shot-corrnoise", "both", "all"])),
             "seed": draw(st.integers(0, 2 ** 31 - 1)), "r": draw(st.floats(0.1, 1.0)), "T": draw(st.floats(50, 400)), "R": 10 ** draw(st.floats(1, 3)),
             "bw": draw(st.floats(0.011, 0.449)), "Fn": draw(st.one_of(st.just(0.0), st.floats(0, 10))), "p_dbm": draw(st.floats(-30, 10)),
             "idark": 10 ** draw(st.floats(-9, -6)), "npol": draw(st.sampled_from([1, 2]))}
@@ -311,6 +317,8 @@ def e_stat(c, logn=18):
         sel, Pn = "shot-only", 0.0
     elif reg == "shot-optnoise":
         sel, Pn = "shot-only", P * 0.5
+    elif reg == "shot-corrnoise":
+        sel, Pn = "shot-only", P * 0.36
     elif reg == "both":
         sel, Pn = "thermal-shot", 0.0
     else:
@@ -318,6 +326,8 @@ def e_stat(c, logn=18):
     E = np.sqrt(P / npol) * np.ones(shape, dtype=complex)
     if Pn:
         nz = np.sqrt(Pn / npol / 2) * (rs.standard_normal(shape) + 1j * rs.standard_normal(shape))
+    if reg == "shot-corrnoise":
+        nz = 0.6 * E        # optical noise fully correlated (in phase) with the field: mean powers add, the cross term is no part of the documented variance
     x = optical_signal(E, nz, n_pol=npol)
     np.random.seed(c["seed"] ^ 0xABCDE)
     y = lib(D.PD, x, BW, r, T, R, sel, idark, Fn)
